@@ -40,6 +40,16 @@ func c19Scenarios(lim map[string]uint64) []c19Arg {
 		sc = append(sc, c19Arg{Name: fmt.Sprintf("name-RENAME-%d", l), Setup: []fsx.Op{{K: "CREATE", H: "root", N: "src"}},
 			Ops: []fsx.Op{{K: "RENAME", H: "root", N: "src", H2: "root", N2: n}, {K: "LOOKUP", H: "root", N: n, As: "_"}, {K: "LOOKUP", H: "root", N: "src", As: "_"}}})
 	}
+	// many names at the limit in one directory (several directory blocks; the name cache is rebuilt after the restart)
+	for _, l := range []uint64{nm - 1, nm} {
+		last := fmt.Sprintf("m%03d", 39)
+		for uint64(len(last)) < l {
+			last += "_"
+		}
+		sc = append(sc, c19Arg{Name: fmt.Sprintf("names-many-%d", l), Setup: []fsx.Op{{K: "MKDIR", H: "root", N: "d"}},
+			Ops: []fsx.Op{{K: "CREATEMANY", H: "root/d", N: "m", Cnt: 40, Len: int64(l)}, {K: "LOOKUP", H: "root/d", N: last, As: "_"}, {K: "RESTART"}, {K: "LOOKUP", H: "root/d", N: last, As: "_"},
+				{K: "CREATE", H: "root/d", N: last, As: "_"}, {K: "READDIRPLUS", H: "root/d", DirCnt: 1 << 20, MaxCnt: 1 << 20}}})
+	}
 	// write sizes
 	idx := []fsx.Op{{K: "CREATE", H: "root", N: "f"}, {K: "WRITE", H: "root/f", Off: (8 + 512 + 600) * 4096, Cnt: 1, Pat: 0x19, Stable: 2}}
 	for _, c := range []uint64{wtpref - 1, wtpref, wtpref + 1, wtmax - 4096, wtmax - 1, wtmax, wtmax + 1} {
